@@ -21,7 +21,8 @@ def names(n):
     return {i + 2: ('f%d' % (i + 1)).encode() for i in range(n)}
 
 
-def build_world(eng, nfiles, max_edges, with_always=True, runid=None, fixed=None, edge_modes=(None, b'm', b'c'), row_kw=None):
+def build_world(eng, nfiles, max_edges, with_always=True, runid=None, fixed=None, edge_modes=(None, b'm', b'c'), row_kw=None,
+                always_stamps=(S_MISSING,)):
     R = runid if runid is not None else z3.Int('R')
     w = DBWorld(eng, R)
     eng.world = w
@@ -30,8 +31,8 @@ def build_world(eng, nfiles, max_edges, with_always=True, runid=None, fixed=None
     ids = sorted(names(nfiles))
     # the ALWAYS pseudo file (row 1)
     if with_always:
-        # the ALWAYS row as redo-always leaves it (stamp "missing") or as a fresh database has it (NULL)
-        w.sym_file(1, ALWAYS, tag='always', fs_choices=(None,), stamp_choices=(None, S_MISSING), csum_choices=(None,),
+        # the ALWAYS row as redo-always leaves it (stamp "missing"); C01 and C14 also explore the NULL stamp of a fresh database
+        w.sym_file(1, ALWAYS, tag='always', fs_choices=(None,), stamp_choices=tuple(always_stamps), csum_choices=(None,),
                    fixed={'is_generated': None, 'is_override': None, 'checked_runid': None, 'failed_runid': None})
     for i in ids:
         w.sym_file(i, names(nfiles)[i], fixed=(fixed or {}).get(i), **(row_kw or {}))
